@@ -300,3 +300,36 @@ func (f *Fn) Branches(tok string) []BranchSite {
 	})
 	return out
 }
+
+// CondsOf returns the if-conditions (outermost first, "cond=T"/"cond=F") whose arm encloses node n
+// in the function body, ignoring loops and switches in between.
+func (f *Fn) CondsOf(n ast.Node) []string {
+	var out []string
+	var stack []ast.Node
+	done := false
+	ast.Inspect(f.Body, func(x ast.Node) bool {
+		if done {
+			return false
+		}
+		if x == nil {
+			stack = stack[:len(stack)-1]
+			return true
+		}
+		stack = append(stack, x)
+		if x != n {
+			return true
+		}
+		for i := 0; i < len(stack)-1; i++ {
+			if s, ok := stack[i].(*ast.IfStmt); ok {
+				if stack[i+1] == ast.Node(s.Body) {
+					out = append(out, types.ExprString(s.Cond)+"=T")
+				} else if s.Else != nil && stack[i+1] == ast.Node(s.Else) {
+					out = append(out, types.ExprString(s.Cond)+"=F")
+				}
+			}
+		}
+		done = true
+		return false
+	})
+	return out
+}
